@@ -57,11 +57,18 @@ def check_result(rec, res, O, u, v, start, end, ctx, group_u=None):
 def run_case(case, rec):
     import dynetx.algorithms as al
     d = Driver(case)
-    for op in case['ops']:
+    half = len(case['ops']) // 2
+    for i, op in enumerate(case['ops']):
         r = d.step(op)
         if r['actual'] != r['expected']:
             rec.note('outcome_mismatch(left to C01)')
             return False
+        if i + 1 == half and len(case['ops']) & 1 and d.M.ids() and case.get('q'):
+            # ask the same object once in the middle of its history (the answers are checked at the end
+            # against the final state: nothing may be remembered from this call)
+            u, v, start, end = pc.resolve(d.M, d.nodes, case['q'][-1])
+            safe(lambda: al.time_respecting_paths(d.G, u, v, start, end))
+            rec.classify('queried mid-history too')
     G, M = d.G, d.M
     if not M.ids():
         return False
